@@ -12,6 +12,9 @@ THEOREMS = [
     "autocorr_affine_invariant",
     "calc_autocorr_samples",
     "calc_autocorr_length",
+    "spinProd_perm",
+    "spinProd_remove_pair",
+    "prodMapper_literal",
 ]
 
 RULE = ("scripted steppers walking through prescribed state / observable sequences: number of samples in "
@@ -41,6 +44,10 @@ RULE = ("scripted steppers walking through prescribed state / observable sequenc
         "temper oracle = identically built reference container driven in lock step (serial semantics): samples, final "
         "arrangement and total_swaps; plus the swap-period boundary s in {T-1,T,T+1,2T} with f dividing T, equal betas, every "
         "exchange accepted. "
+        "Spin products list 1..3 variables plus repeated indices (even and odd multiplicities, shuffled), taken literally by "
+        "oracle and model; tempering variable / spin-product helpers on mock replicas with prescribed spin states; isingbond "
+        "graphs include J = 0 and |J| = 2^-60 edges (first/middle/last/all), observables over ALL listed edges, n_bonds() == "
+        "edges.len(). "
         "Non-trivial = all columns non-constant (oracle applies); distinct = distinct input line.")
 
 
